@@ -40,6 +40,8 @@ type mutantSpec struct {
 	Replace string   `json:"replace"`
 	Expect  []string `json:"expect"`
 	Note    string   `json:"note,omitempty"`
+	// Equivalent marks a behaviour-preserving refactoring: the rules must stay silent.
+	Equivalent bool `json:"equivalent,omitempty"`
 }
 
 func main() {
@@ -298,6 +300,14 @@ func runMutant(repo, prop string, pm *propMeta, specPath string) int {
 			other = append(other, o.ID)
 		}
 	}
+	if m.Equivalent {
+		if len(hits)+len(other) == 0 {
+			fmt.Printf("MUTANT silent-ok %s (behaviour-preserving refactoring, no report)\n", m.Name)
+			return 0
+		}
+		fmt.Printf("MUTANT false-alarm %s (behaviour-preserving refactoring reported: %s)\n", m.Name, strings.Join(append(hits, other...), ","))
+		return 6
+	}
 	if len(hits) > 0 {
 		fmt.Printf("MUTANT detected %s by %s (also: %s)\n", m.Name, strings.Join(hits, ","), strings.Join(other, ","))
 		return 0
@@ -347,6 +357,8 @@ func runMutants(verif, repo, prop string) map[string]interface{} {
 			st["invalid"]++
 		case 5:
 			st["missed"]++
+		case 6:
+			st["false_alarm"]++
 		default:
 			st["error"]++
 		}
@@ -360,7 +372,7 @@ func runMutants(verif, repo, prop string) map[string]interface{} {
 	return map[string]interface{}{
 		"note":     "self-validation of the rules on seeded breakages applied through a go/packages overlay; informational, never affects the verdict on /repo",
 		"applied":  len(files) - st["skipped"],
-		"detected": st["detected"], "missed": st["missed"], "skipped": st["skipped"], "invalid": st["invalid"], "error": st["error"],
+		"detected": st["detected"], "missed": st["missed"], "skipped": st["skipped"], "invalid": st["invalid"], "error": st["error"], "false_alarms_on_equivalent": st["false_alarm"],
 		"results": lines,
 	}
 }
